@@ -12,8 +12,8 @@ def u(b):
     return int.from_bytes(b, "big")
 
 
-def parse(msg):
-    """-> dict(ed, total, s1=bytes, s1f=dict, s2=bytes|None, nsub, flags, descs, s4=bytes payload, s3len, s4len, start)"""
+def parse(msg, allow5=False):
+    """(allow5: the library's edition-5 draft messages, framed like edition 4)  -> dict(ed, total, s1=bytes, s1f=dict, s2=bytes|None, nsub, flags, descs, s4=bytes payload, s3len, s4len, start)"""
     i = msg.find(b"BUFR")
     if i < 0:
         raise FrameError("no BUFR")
@@ -21,14 +21,14 @@ def parse(msg):
     if len(m) < 8:
         raise FrameError("short s0")
     total = u(m[4:7]); ed = m[7]
-    if ed not in (2, 3, 4):
+    if ed not in (2, 3, 4) and not (allow5 and ed == 5):
         raise FrameError("edition %d" % ed)
     if len(m) < total:
         raise FrameError("truncated: %d < %d" % (len(m), total))
     p = 8
     l1 = u(m[p:p + 3]); s1 = m[p:p + l1]
     f = {}
-    if ed == 4:
+    if ed >= 4:
         f = dict(master=s1[3], centre=u(s1[4:6]), subcentre=u(s1[6:8]), upd=s1[8], flag=s1[9], cat=s1[10], subcat=s1[11],
                  lsubcat=s1[12], mver=s1[13], lver=s1[14], year=u(s1[15:17]), month=s1[17], day=s1[18], hour=s1[19], minute=s1[20], second=s1[21])
         has2 = bool(s1[9] & 0x80)
